@@ -42,3 +42,7 @@ check("C07", "exploration", "model-based histories (Hypothesis operation lists +
       "Generated operation histories (construct, set default/non-default, parse of multi-member byte strings, from_dict, copy/deepcopy/pickle, observers) are applied to the real message and to a last-write-wins model; after every step which_one_of, AttributeError on siblings, the encoded records (spec parser + reference WhichOneof) and to_dict in both casings must agree with the model.",
       "Samples histories of bounded length over one corpus message with three oneof groups covering every member kind.",
       "DESIGN.md 3/C07")
+check("C14", "exploration", "Hypothesis histories (observer sequences, copies, mutation of the copy) + metamorphic oracle",
+      "Generated histories: message obtained by construction / parse with unknown fields / from_dict, a sequence of read-only operations, copies in generated order, a mutation of the deep / unpickled copy. After every observer the encoding, the public-observer snapshot, is_set and equality must be unchanged; copies must be equal and byte-identical; the mutation must not reach the original.",
+      "Samples histories; an observer that raises is counted and tolerated (the property claims purity, not totality).",
+      "DESIGN.md 3/C14")
